@@ -161,6 +161,50 @@ def shared_state_section(ctx, viol, distinct):
     return evals
 
 
+def builtin_channels_independent(ctx, viol):
+    """hypotheses of C12_update_order_irrelevant_for_independent_channels on the built-in channels: the channel_states
+    of two different channels are disjoint and update_states returns only the channel's own states; and the
+    conclusion, directly: permuting module.channels does not change a simulation."""
+    import numpy as np
+    import jax.numpy as jnp
+    import jaxley as jx
+    from jaxley.channels import HH, Leak, Na, K, Km, CaL, CaT
+    from simlib import quiet
+    rng = ctx.rng
+    classes = [HH, Leak, Na, K, Km, CaL, CaT]
+    n = 0
+    inst = [c() for c in classes]
+    for i, a in enumerate(inst):
+        params = {k: jnp.asarray([v]) for k, v in a.channel_params.items()}
+        states = {k: jnp.asarray([v]) for k, v in a.channel_states.items()}
+        out = a.update_states(states, 0.025, jnp.asarray([-60.0]), params)
+        n += 1
+        if not set(out) <= set(a.channel_states):
+            viol.append({"kind": "a built-in channel writes a state that is not one of its own channel_states", "channel": a._name, "returned": sorted(out), "finding_class": None})
+        for b in inst[i + 1:]:
+            if set(a.channel_states) & set(b.channel_states):
+                viol.append({"kind": "two built-in channels share a state (the update order would matter)", "channels": [a._name, b._name],
+                             "shared": sorted(set(a.channel_states) & set(b.channel_states)), "finding_class": None})
+    for _ in range(ctx.budget(2, 8)):
+        with quiet():
+            cell = jx.Cell([jx.Branch(jx.Compartment(), 2)] * 2, parents=[-1, 0])
+            for c in rng.sample(classes, rng.randint(2, 5)):
+                cell.insert(c())
+            cell.branch(0).comp(0).stimulate(0.05 * jnp.ones(40), verbose=False)
+            cell.record("v", verbose=False)
+            a = np.asarray(jx.integrate(cell))
+            order = [c._name for c in cell.channels]
+            perm = list(cell.channels)
+            rng.shuffle(perm)
+            cell.channels[:] = perm
+            b = np.asarray(jx.integrate(cell))
+        n += 1
+        if np.abs(a - b).max() > 1e-12:
+            viol.append({"kind": "permuting the channel list of built-in channels changes the simulation", "order": order, "permuted": [c._name for c in perm],
+                         "max_abs_diff": float(np.abs(a - b).max()), "finding_class": None})
+    return n
+
+
 def run(ctx):
     import numpy as np
     import jaxley as jx
@@ -311,6 +355,7 @@ def run(ctx):
     # tests/test_shared_state.py): the update order of a constituent's channels must not depend on what is
     # listed before it
     evals += shared_state_section(ctx, viol, distinct)
+    evals += builtin_channels_independent(ctx, viol)
     for v in viol:
         v.setdefault("finding_class", None)
     return {"evaluations": evals, "distinct_nontrivial": len(distinct),
